@@ -7,7 +7,7 @@ type UTF8Info struct {
 	ValidApartFromCutTail bool // h = v || t, v well-formed, t empty or a proper prefix of a well-formed multi-byte sequence
 	TailLen               int  // len(t)
 	CompleteNonASCII      int  // number of complete non-ASCII scalars in v
-	ASCIITextOnly         bool // every byte in {09,0A,0C,0D,20..7E}
+	ASCIITextOnly         bool // every byte in {09,0A,0C,0D,1B,20..7E}: the ASCII members of class T of the file(1) table the property is anchored in that are not binary-data bytes (ESC is text there, DEL is not)
 	HasC1                 bool // some byte in 0x80..0x9F
 }
 
@@ -40,7 +40,7 @@ func seqLen(b0 byte) (n int, lo, hi byte) {
 func AnalyzeUTF8(h []byte) UTF8Info {
 	info := UTF8Info{ASCIITextOnly: true}
 	for _, b := range h {
-		if !(b == 0x09 || b == 0x0A || b == 0x0C || b == 0x0D || (b >= 0x20 && b <= 0x7E)) {
+		if !(b == 0x09 || b == 0x0A || b == 0x0C || b == 0x0D || b == 0x1B || (b >= 0x20 && b <= 0x7E)) {
 			info.ASCIITextOnly = false
 		}
 		if b >= 0x80 && b <= 0x9F {
